@@ -8,6 +8,7 @@ package statedb
 import (
 	"bufio"
 	"bytes"
+	"encoding/hex"
 	"encoding/json"
 	"fmt"
 	"math/big"
@@ -32,6 +33,9 @@ type vsCase struct {
 	Contract string    `json:"contract"`
 	// after the last round: puts/storage writes left PENDING on the live StateDB
 	Pending *vsRound `json:"pending"`
+	// malformed storage keys (hex; shorter or longer than 32 bytes), asked against the last
+	// committed storage root: GetStateQuery forwards the client's StorageKeys unchanged
+	QBadKeys []string `json:"qbadkeys"`
 }
 
 type vsObs struct {
@@ -188,6 +192,42 @@ func TestVerifStateDBProofs(t *testing.T) {
 							obs = append(obs, o)
 						}
 					}
+				}
+			}
+		}
+		if len(c.QBadKeys) > 0 && len(sroots) > 0 && len(sroots[len(sroots)-1]) > 0 {
+			last := len(c.Rounds) - 1
+			sroot := sroots[last]
+			for _, comp := range []bool{false, true} {
+				for _, hk := range c.QBadKeys {
+					key, _ := hex.DecodeString(hk)
+					o := vsObs{Kind: "badvar", Name: hk, Round: last, UseRoot: true, Comp: comp}
+					func() {
+						var p *types.ContractVarProof
+						defer func() {
+							if r := recover(); r != nil {
+								if p == nil {
+									o.Err = fmt.Sprintf("panic in GetVarAndProof: %v", r)
+								} else {
+									o.Value = fmt.Sprintf("verifier panic: %v", r)
+								}
+							}
+						}()
+						var err error
+						p, err = sdb.GetVarAndProof(key, sroot, comp)
+						if err != nil {
+							o.Err = err.Error()
+							p = nil
+							return
+						}
+						o.Inclusion = p.Inclusion
+						var val []byte
+						if p.Inclusion {
+							val = common.Hasher(p.Value)
+						}
+						o.Verified = vsVerify(sroot, p.Inclusion, comp, key, val, p.ProofKey, p.ProofVal, p.Bitmap, p.AuditPath, int(p.Height))
+					}()
+					obs = append(obs, o)
 				}
 			}
 		}
